@@ -142,6 +142,47 @@ def nested(ctx, n0, n1):
     return ctx.done(ctx.AND(*oks), obs)
 
 
+def nested_leaves(ctx, n0, n1, leaf, lk1='i'):
+    """nested containers whose innermost items are 1-D arrays: ndarray leaves with explicit labels for every level, or DimArray
+    leaves that bring their own axis - equal to the plain constructor with the same values, labels and dims"""
+    da = ctx.da
+    k0 = [10 * (i + 1) for i in range(n0)]                 # dict keys: concrete
+    l0 = ctx.labels('i', n0, 'a')                           # first-level labels of the list forms: symbolic
+    l1 = ctx.labels(lk1, n1, 'b')
+    cells = ctx.cells('f', n0 * n1, 'v')
+    rows = [cells[i * n1:(i + 1) * n1] for i in range(n0)]
+    if leaf == 'ndarray':
+        mk = lambda row: ctx.nparray(row, kind='f')
+    else:
+        mk = lambda row: ctx.mk(['y'], [l1], row, lkinds=[lk1], register=False)
+    forms = {}
+    refd = Ref(['x', 'y'], [k0, l1], cells)
+    refl = Ref(['x', 'y'], [l0, l1], cells)
+    if leaf == 'ndarray':
+        full_d = [list(k0), ctx.nparray(l1, kind=lk1)]
+        full_l = [list(l0), list(l1)]
+        forms['dict'] = (lambda: da.DimArray(dict((k, mk(r)) for k, r in zip(k0, rows)), dims=['x', 'y'], labels=full_d), refd)
+        forms['dict-from_nested'] = (lambda: da.DimArray.from_nested(dict((k, mk(r)) for k, r in zip(k0, rows)), dims=['x', 'y'], labels=full_d), refd)
+        forms['list'] = (lambda: da.DimArray([mk(r) for r in rows], dims=['x', 'y'], labels=full_l), refl)
+        forms['list-from_nested'] = (lambda: da.DimArray.from_nested([mk(r) for r in rows], dims=['x', 'y'], labels=full_l), refl)
+        forms['list-of-lists'] = (lambda: da.DimArray([list(r) for r in rows], dims=['x', 'y'], labels=full_l), refl)
+    else:
+        forms['dict'] = (lambda: da.DimArray.from_nested(dict((k, mk(r)) for k, r in zip(k0, rows)), dims=['x']), refd)
+        forms['dict-ctor'] = (lambda: da.DimArray(dict((k, mk(r)) for k, r in zip(k0, rows)), dims=['x']), refd)
+        forms['list'] = (lambda: da.DimArray.from_nested([mk(r) for r in rows], dims=['x'], labels=[list(l0)]), refl)
+        forms['array()'] = (lambda: da.array([mk(r) for r in rows], axis='x', keys=list(l0)), refl)
+        forms['array()-dict'] = (lambda: da.array(dict((k, mk(r)) for k, r in zip(k0, rows)), axis='x'), refd)
+    oks = []
+    failing = []
+    for name, (f, ref) in sorted(forms.items()):
+        r = ctx.call(f)
+        ok = r[0] == 'ok' and same(ctx, r[1], ref)
+        if ok is False:
+            failing.append([name, r[1] if r[0] != 'ok' else ctx.observe(r[1])])
+        oks.append(ok)
+    return ctx.done(ctx.AND(*oks), failing[:3])
+
+
 def _perm(ctx, name, values):
     perms = list(itertools.permutations(values))
     return list(perms[ctx.choice(name, len(perms))])
@@ -318,6 +359,9 @@ def templates():
             add('constructors-%s-%s-%s' % ('x'.join(map(str, shape)), ''.join(lks), dk), 'constructors', cost=0.5, shape=shape, lkinds=lks, dkind=dk)
     add('nested-2x2', 'nested', cost=0.5, n0=2, n1=2)
     add('nested-1x3', 'nested', cost=0.5, n0=1, n1=3)
+    for leaf in ('ndarray', 'dimarray'):
+        for n0, n1, lk1 in ((2, 3, 'i'), (2, 2, 'U'), (1, 2, 'f'), (3, 1, 'i')):
+            add('nested-leaves-%s-%dx%d-%s' % (leaf, n0, n1, lk1), 'nested_leaves', cost=1, n0=n0, n1=n1, leaf=leaf, lk1=lk1)
     for case in ('wrong-length', 'swapped-lengths', 'too-few-axes', 'too-many-axes', 'scalar-with-axis', 'too-few-axes-Axis', 'duplicate-names-pairs', 'duplicate-names-dims',
                  'duplicate-names-Axis', 'duplicate-names-shape-only', 'empty-name', 'zeros-shape-mismatch', 'values-setter-wrong-shape',
                  'axes-setter-wrong-size-Axes', 'axes-setter-wrong-size-pairs', 'axis-values-wrong-size', 'axes-item-wrong-size'):
